@@ -48,6 +48,7 @@ type c02conn struct {
 	key      *Key
 	order    int // 0 A: client first; 1 B: target first; 2 C: concurrent; 3 D: client never half-closes
 	abort    bool
+	tabort   bool // the target dies mid-stream (RST) instead
 	up, down [][]byte
 	coalesce bool
 	addrStr  string
@@ -97,6 +98,8 @@ func runC02(rc *RunCtx) {
 		}
 		if abortsOn && F.Draw(3) == 0 {
 			c.abort = true
+		} else if abortsOn && F.Draw(3) == 0 {
+			c.tabort = true
 		}
 		conns[k] = c
 		rc.D("conn %d key=%s order=%s up=%v down=%v coalesce=%v addr=%s abort=%v", k, c.key.ID, "ABCD"[c.order:c.order+1], lens(c.up), lens(c.down), c.coalesce, c.addrStr, c.abort)
@@ -137,6 +140,16 @@ func runC02(rc *RunCtx) {
 				}
 			}
 			writeDown := func() {
+				if c.tabort {
+					// the target sends part of its data and then resets the connection
+					all := concat(c.down)
+					n := F.Draw(len(all) + 1)
+					tc.C.Write(all[:n])
+					tc.C.Abort()
+					c.aborted = true
+					simrt.Fault("target_rst_midstream")
+					return
+				}
 				for _, m := range c.down {
 					if err := writeSegmented(G, tc.C, m, 3); err != nil {
 						return
@@ -227,6 +240,11 @@ func runC02(rc *RunCtx) {
 			if ok && c.order != 3 {
 				cc.CloseWrite()
 			}
+			if c.tabort && c.order == 3 {
+				// the client never half-closes in order D; with a dead target nothing else ends the exchange
+				rdone.WaitFor(time.Second)
+				cc.CloseWrite()
+			}
 			rdone.Wait()
 			if !c.aborted {
 				cc.Close()
@@ -251,7 +269,11 @@ func runC02(rc *RunCtx) {
 			got = c.tc.Got
 		}
 		if c.aborted {
-			rc.Probe("client_abort")
+			if c.tabort {
+				rc.Probe("target_abort")
+			} else {
+				rc.Probe("client_abort")
+			}
 			// Relaxed oracle under an injected client RST: never wrong bytes.
 			if !prefixOf(got, upAll) {
 				rc.Failf("corrupt-upstream-under-abort", "conn %d: target received bytes that are not a prefix of what the client sent (first difference at %d of %d)", c.k, firstDiff(got, upAll), len(got))
